@@ -313,6 +313,25 @@ def case_coverage(rng: Any, ctx: Ctx, index: int) -> None:
                               f'map {shape2}, {n} in-map samples: coverage differs from the histogram of the pixel coordinates (sum {int(cov.sum())})')
         guarded('C17.coverage', judge_grid)
 
+    if index % 3 == 2:
+        # a raster: co-latitudes (n, 1) against longitudes (1, m) - a sampling is the BROADCAST of its three arrays
+        nr, mr = int(rng.integers(2, 7)), int(rng.integers(2, 7))
+        th = np.arccos(rng.uniform(-1, 1, (nr, 1)))
+        ph = rng.uniform(0, 2 * np.pi, (1, mr))
+        rs = Sampling(jnp.asarray(th.astype(fdt)), jnp.asarray(ph.astype(fdt)), jnp.asarray(0.0, dtype=fdt))
+
+        def judge_raster() -> None:
+            cov = np.asarray(land.get_coverage(rs))
+            T, Pp = np.broadcast_arrays(th.astype(fdt), ph.astype(fdt))
+            ref = np.bincount(hp.ang2pix(nside, T.ravel().astype(np.float64), Pp.ravel().astype(np.float64)), minlength=12 * nside * nside)
+            LOG.evaluated('C17.coverage')
+            LOG.count('C17.coverage.raster', f'{nr}x{mr}')
+            if int(cov.sum()) != nr * mr:
+                LOG.violation('C17', 'C17.coverage', 'get_coverage/raster/sum', f'sum {int(cov.sum())} for a {nr}x{mr} raster ({nr * mr} samples)')
+            elif fdt == np.float64 and not np.array_equal(cov.ravel(), ref):
+                LOG.violation('C17', 'C17.coverage', 'get_coverage/raster/not-histogram', f'{nr}x{mr} raster at nside {nside}')
+        guarded('C17.coverage', judge_raster)
+
     if index % 4 == 0:
         # a landscape with a frequency axis: the coverage has the landscape's shape and still sums to the number of samples
         from furax.landscapes import FrequencyLandscape
